@@ -16,6 +16,9 @@ CHECKS['C04'] = dict(cat='exploration', tech='Hypothesis-generated configuration
 CHECKS['C01'] = dict(cat='exploration', tech='Hypothesis-generated configurations; oracle: independent scalar-loop reference of the FCR / Standard / BICYCLE levelized-cost formulas applied to the run\'s own reported CCap, Coam, allocation ratio, other annual costs and yearly energy series',
              text='Generated runs over econ model x end-use x plant type x reservoir model with cost, price and add-on layers and year-to-year varying energy; LCOE/LCOH/LCOC are recomputed by a reference written independently of the code (plain loops, rel 1e-9). Deviations are classified by which alternative cost term explains them, so the three recorded findings (F-C01-a/b/c) are matched narrowly and anything else is reported.',
              note='Trusts the documented reading of other annual costs (pumping for heat-only end uses, heat-pump electricity, peaking fuel / boiler efficiency). Sampled inputs; S-DAC-GT, SBT/SUTRA/AGS economics and NaN-valued degenerate runs excluded and counted.', ref='2/C01')
+CHECKS['C16'] = dict(cat='exploration', tech='exhaustive integer grid + Hypothesis floats against a closed-form schedule (direct calls of BuildPricingModel/BuildPTCModel); metamorphic paired runs with/without incentives; run-level price series vs closed form',
+             text='The two schedule builders are compared with the closed form over a strided (quick) or full (thorough) integer grid lifetime x escalation start x PTC duration and over random float settings incl. start > end; generated runs check the zero construction-year prefix and the operating part of every price series; paired runs check RITCValue = rate x cost and the exact CCap / Coam deltas of grants, incentives, fees and tax relief, alone and combined.',
+             note='PTC durations restricted to 0..lifetime as in the statement; heat/cooling PTC amount not checked (unit conversion not fixed by the statement); sampled floats.', ref='2/C16')
 NOT_YET = {}
 def main():
     props = [json.loads(l) for l in open(os.path.join(HERE, 'properties.jsonl'))]
